@@ -82,6 +82,8 @@ def run_case(case, ctx):
     if route == "cli":
       text_in = emit.model_text(model, emit.Style(rng))
       res = routes.run_potable(["@IN", "@OUT"], text_in)
+      if res["rc"] == 1 and "OverflowError" in res["err"]:
+        raise OverflowError("potable subprocess: math range error")
       if res["rc"] != 0 or not res["exists"]:
         ctx.violation("cli_failed", "potable rc=%s stderr=%s" % (res["rc"], res["err"][-500:]), what="cli", exc="rc%s" % res["rc"])
         return
@@ -105,6 +107,13 @@ def run_case(case, ctx):
           if tab.nr != nr or tab.cutoff != cutoff:
             ctx.violation("grid_parse", "tabulation grid nr=%r cutoff=%r, file says %r %r" % (tab.nr, tab.cutoff, nr, cutoff), what="grid")
           text = routes.write_tab(tab)
+  except OverflowError as e:
+    if oracle.overflow_is_out_of_domain([(o, [dr * (i + 1) for i in range(N)]) for o in refs]):
+      ctx.count("out_of_domain")
+      return
+    et, fn = exc_sig(e)
+    ctx.violation("exception", "valid model failed: %s: %s" % (et, e), what="exception", exc=et, func=fn)
+    return
   except Exception as e:
     et, fn = exc_sig(e)
     ctx.violation("exception", "valid model failed: %s: %s" % (et, e), what="exception", exc=et, func=fn)
